@@ -1,6 +1,7 @@
 import Driver.Common
 import LiskVerif.Model.SMTSpec
 import LiskVerif.Model.SMTVerify
+import LiskVerif.Model.SMTBatch
 import LiskVerif.Model.Sha256
 
 /-
@@ -8,6 +9,8 @@ C10 driver.  ops:
   reset <keylen> [<subtree height>]    -> ok
   update k=v,k=v,...|-                 -> root of the accumulated map (SMT.mapRoot with SHA-256)
   reopen                               -> root
+  uniq k=v,...|-                       -> the batch normalised by UniqueAndSort (Model/SMTBatch.lean): k=v,...|-
+  nupdate k=v,...|-                    -> update with the normalised batch
   prove k,k,...|-                      -> S:<hashes> Q:<key:value:bitmap;...>  | err
   verify <tag> <root> <keylen> <keys> <siblings> <queries>  -> true|false|err  (single query: + /1:<verify1>)
 -/
@@ -70,6 +73,16 @@ def step (d : DSt) (w : List String) : DSt × String :=
       ({ d with m := m', tree := none }, Hex.encode (mapRoot H d.keyLen m'))
     | none => bad
   | ["reopen"] => (d, Hex.encode (mapRoot H d.keyLen d.m))
+  | ["uniq", kvs] =>
+    match parseKVs kvs with
+    | some b => (d, showList ((uniqueAndSort b).map fun kv => Hex.encode kv.1 ++ "=" ++ Hex.encode kv.2) ",")
+    | none => bad
+  | ["nupdate", kvs] =>
+    match parseKVs kvs with
+    | some b =>
+      let m' := applyBatch d.m (uniqueAndSort b)
+      ({ d with m := m', tree := none }, Hex.encode (mapRoot H d.keyLen m'))
+    | none => bad
   | ["prove", ks] =>
     match parseHexList ks with
     | some keys =>
